@@ -15,16 +15,23 @@ PES handler's slot over an interleaving; here the TRACE is projected.
    distinct across slots, every tagged event in the trace has a tag `< nextTag`; holds initially,
    preserved by every dispatcher step on ANY packet (`tagInv_step` … `tagInv_runApp`).
    A tag that left the table is never re-issued and never emits again (`tag_never_reissued`).
-2. **Projection** (`pes_trace_is_filter_run`): what consumer `τ` observes over an interleaving is
-   what it observed before followed by exactly the events of `PesFilter.run` over the unflagged
+2. **Projection** (`pes_trace_is_filter_run_kept`): what consumer `τ` observes over an interleaving
+   is what it observed before followed by exactly the events of `PesFilter.run` over the unflagged
    packets of its own PID, in order, with global ranges; no other handler emits an event tagged
-   `τ`; independent of the interleaving (`projection_independent_of_interleaving`).
+   `τ`; independent of the interleaving (`projection_independent_of_interleaving`,
+   `projection_independent_modulo_offsets`).  The hypothesis is `Keeps` (along the actual run the
+   consumer is not replaced); `pes_trace_is_filter_run` assumes the run-relative `QuietAlong`
+   instead, and `pes_trace_is_filter_run_benign` / `keeps_of_es_interleaving` /
+   `keeps_of_es_and_repeated_tables` / `keeps_of_benign_traffic` derive it from hypotheses on the
+   INPUT: the other packets belong to other elementary streams, are repetitions of the tables in
+   force (C10), or go to recorders without scripted action.
 3. **Corollaries**: `es_consumer_sees_only_its_pid` (C19), `es_consumer_conservation` (C02),
    `es_consumer_well_nested` (C08) for EVERY tag over ANY pushed bytes.
 -/
 namespace Ts.Props.C02Trace
 open Ts Ts.Demux Ts.App Ts.Lemmas.Proj Ts.Spec.Protocol Ts.Spec.PesMux
-open Ts.Lemmas.C02 (QueuesNothingFor streamPackets streamFinal expectedBegin esOpen)
+open Ts.Lemmas.C02 (QuietAlong Benign streamPackets streamFinal expectedBegin esOpen)
+open Ts.Lemmas.C10 (RepPacket QuiescentH)
 open Ts.Lemmas.C19 (EvInPacket R.bind_eq_ok R.ok_inj)
 
 /-! ## 0. vocabulary -/
@@ -219,13 +226,56 @@ theorem keeps_spec (p τ : Nat) (tc : Tab Handler × Ctx) (pk : Pk) (pks : List 
       injection e with e; subst e; exact hk
     · intro hk; exact hk r rfl
 
-/-- the hypotheses of `C02.not_attributed_to_other_pid` imply `Keeps` -/
+/-- the hypotheses of `C02.not_attributed_to_other_pid` imply `Keeps`: if slot `p` holds the PES
+handler tagged `τ` and the run is quiet for `p` (`QuietAlong`: no handler that actually consumes a
+packet of another PID in this run queues a change naming `p`), the consumer is never replaced -/
 theorem keeps_of_not_attributed (p τ : Nat) (pks : List Pk) (t : Tab Handler) (c : Ctx)
     (f : PesFilter.F) (hg : t.get p = some (.pes τ f))
-    (h188 : ∀ pk ∈ pks, pk.pid = p → pk.bytes.length = 188)
-    (hN : ∀ pk ∈ pks, pk.pid ≠ p → QueuesNothingFor App.sem p pk) :
+    (hQ : QuietAlong App.sem p (t, c) pks) :
     Keeps p τ (t, c) pks = true :=
-  keeps_of_queuesNothing p τ pks t c f hg h188 hN
+  Ts.Lemmas.C02.keeps_of_quietAlong p τ pks t c f hg hQ
+
+/-- INPUT-LEVEL ⇒ `Keeps`, elementary streams only.  Slot `p` holds the PES handler tagged `τ`; every
+packet of `pks` on another PID `q` finds a PES handler in slot `q` of the table `t` at the START of
+the run (the other traffic consists of elementary streams with PES handlers).  Then along the run
+consumer `τ` is never replaced or removed.  No hypothesis on packet lengths, flags or contents:
+PES handlers queue no change (`C02.pes_handler_queues_nothing`) and stay PES handlers. -/
+theorem keeps_of_es_interleaving (p τ : Nat) (pks : List Pk) (t : Tab Handler) (c : Ctx)
+    (f : PesFilter.F) (hg : t.get p = some (.pes τ f))
+    (hO : ∀ pk ∈ pks, pk.pid ≠ p → ∃ σ g, t.get pk.pid = some (.pes σ g)) :
+    Keeps p τ (t, c) pks = true :=
+  Ts.Lemmas.C02.keeps_of_benign (fun _ => 0) p τ pks t c f hg
+    (fun pk hm hne => Or.inl (hO pk hm hne))
+
+/-- INPUT-LEVEL ⇒ `Keeps`, elementary streams and REPEATED TABLES (the property's "any interleaving
+with other PIDs and repeated tables").  Slot `p` holds the PES handler tagged `τ`; every packet of
+`pks` on another PID `q` either finds a PES handler in slot `q` of the table `t` at the start of
+the run, or is an unflagged repetition packet (C10 `RepPacket (ver q)`: 188 bytes whose payload, if
+any, is a continuation payload or the first payload of a packetisation of a well-formed section
+with `version_number = ver q`) and slot `q` of `t` holds a PAT / PMT handler quiescent at that
+version (C10 `QuiescentH`).  Then along the run consumer `τ` is never replaced or removed. -/
+theorem keeps_of_es_and_repeated_tables (ver : Nat → Nat) (p τ : Nat) (pks : List Pk)
+    (t : Tab Handler) (c : Ctx) (f : PesFilter.F) (hg : t.get p = some (.pes τ f))
+    (hO : ∀ pk ∈ pks, pk.pid ≠ p →
+      (∃ σ g, t.get pk.pid = some (.pes σ g))
+      ∨ (pk.flagged = false ∧ RepPacket (ver pk.pid) pk.bytes
+          ∧ ∃ h, t.get pk.pid = some h ∧ QuiescentH (ver pk.pid) h)) :
+    Keeps p τ (t, c) pks = true := by
+  refine Ts.Lemmas.C02.keeps_of_benign ver p τ pks t c f hg ?_
+  intro pk hm hne
+  rcases hO pk hm hne with h | ⟨_, hr, hq⟩
+  · exact Or.inl h
+  · exact Or.inr (Or.inl ⟨hq, Or.inr hr⟩)
+
+/-- INPUT-LEVEL ⇒ `Keeps`, the general form: every packet on another PID is `Benign` for the table
+and the script at the start of the run (`C02.benign_iff`: other elementary streams; flagged or
+repetition packets on quiescent PAT / PMT handlers; packets — flagged, or without scripted action —
+on recorders or on unregistered PIDs other than 0, e.g. null packets). -/
+theorem keeps_of_benign_traffic (ver : Nat → Nat) (p τ : Nat) (pks : List Pk) (t : Tab Handler)
+    (c : Ctx) (f : PesFilter.F) (hg : t.get p = some (.pes τ f))
+    (hB : ∀ pk ∈ pks, pk.pid ≠ p → Benign ver c.cfg.script t pk) :
+    Keeps p τ (t, c) pks = true :=
+  Ts.Lemmas.C02.keeps_of_benign ver p τ pks t c f hg hB
 
 /-- MAIN, semantic hypothesis.  `TagInv (t, c)`; slot `p` holds the PES handler tagged `τ` in
 filter state `f`; along the run over the interleaving `pks` the consumer is never replaced or
@@ -256,13 +306,14 @@ theorem pes_trace_is_filter_run_kept (p τ : Nat) (pks : List Pk) (t : Tab Handl
     exact h188 pk hm hp.1 hp.2
   · rw [proj_of_trace τ c c' new a5, a6]
 
-/-- MAIN, with the hypotheses of `C02.not_attributed_to_other_pid`: no packet of another PID makes
-its handler queue a change naming `p`; packets on `p` are 188 bytes. -/
+/-- MAIN, with the hypotheses of `C02.not_attributed_to_other_pid`: the run is quiet for `p`
+(`hQ : QuietAlong`, a hypothesis on the ACTUAL run: no handler that consumes a packet of another
+PID in this run queues a change naming `p`); packets on `p` are 188 bytes. -/
 theorem pes_trace_is_filter_run (p τ : Nat) (pks : List Pk) (t : Tab Handler) (c : Ctx)
     (f : PesFilter.F) (t' : Tab Handler) (c' : Ctx)
     (hi : TagInv (t, c)) (hg : t.get p = some (.pes τ f))
     (h188 : ∀ pk ∈ pks, pk.pid = p → pk.bytes.length = 188)
-    (hN : ∀ pk ∈ pks, pk.pid ≠ p → QueuesNothingFor App.sem p pk)
+    (hQ : QuietAlong App.sem p (t, c) pks)
     (hrun : pushSpec App.sem (t, c) pks = .ok (t', c')) :
     ∃ f' evss outs,
       PesFilter.run f ((own p pks).map (·.bytes)) = .ok (f', evss) ∧
@@ -270,14 +321,14 @@ theorem pes_trace_is_filter_run (p τ : Nat) (pks : List Pk) (t : Tab Handler) (
       proj τ c' = proj τ c ++ outs.flatten ∧
       t'.get p = some (.pes τ f') ∧ TagInv (t', c') :=
   pes_trace_is_filter_run_kept p τ pks t c f t' c' hi hg (fun pk hm hp _ => h188 pk hm hp)
-    (keeps_of_queuesNothing p τ pks t c f hg h188 hN) hrun
+    (keeps_of_not_attributed p τ pks t c f hg hQ) hrun
 
 /-- the same for the real double loop `pushModel` (`C06.push_refines_spec`) -/
 theorem pes_trace_is_filter_run_model (p τ : Nat) (pks : List Pk) (t : Tab Handler) (c : Ctx)
     (f : PesFilter.F) (t' : Tab Handler) (c' : Ctx)
     (hi : TagInv (t, c)) (hg : t.get p = some (.pes τ f))
     (h188 : ∀ pk ∈ pks, pk.pid = p → pk.bytes.length = 188)
-    (hN : ∀ pk ∈ pks, pk.pid ≠ p → QueuesNothingFor App.sem p pk)
+    (hQ : QuietAlong App.sem p (t, c) pks)
     (hrun : pushModel App.sem (t, c) pks = .ok (t', c')) :
     ∃ f' evss outs,
       PesFilter.run f ((own p pks).map (·.bytes)) = .ok (f', evss) ∧
@@ -285,7 +336,27 @@ theorem pes_trace_is_filter_run_model (p τ : Nat) (pks : List Pk) (t : Tab Hand
       proj τ c' = proj τ c ++ outs.flatten ∧
       t'.get p = some (.pes τ f') ∧ TagInv (t', c') := by
   rw [C06.push_refines_spec] at hrun
-  exact pes_trace_is_filter_run p τ pks t c f t' c' hi hg h188 hN hrun
+  exact pes_trace_is_filter_run p τ pks t c f t' c' hi hg h188 hQ hrun
+
+/-- MAIN, INPUT-LEVEL hypotheses: ANY interleaving of the packets of PID `p` with packets of other
+elementary streams, repetitions of the tables in force, and recorder traffic without scripted
+action (`hB : Benign`, relative to the table and script at the START of the run; see
+`C02.benign_iff`, and `keeps_of_es_and_repeated_tables` for the hypothesis written out without the
+recorder clause).  `TagInv (t, c)`; slot `p` holds the PES handler tagged `τ` in state `f`; the
+unflagged packets on `p` are 188 bytes.  Conclusion as in `pes_trace_is_filter_run_kept`. -/
+theorem pes_trace_is_filter_run_benign (ver : Nat → Nat) (p τ : Nat) (pks : List Pk)
+    (t : Tab Handler) (c : Ctx) (f : PesFilter.F) (t' : Tab Handler) (c' : Ctx)
+    (hi : TagInv (t, c)) (hg : t.get p = some (.pes τ f))
+    (h188 : ∀ pk ∈ pks, pk.pid = p → pk.flagged = false → pk.bytes.length = 188)
+    (hB : ∀ pk ∈ pks, pk.pid ≠ p → Benign ver c.cfg.script t pk)
+    (hrun : pushSpec App.sem (t, c) pks = .ok (t', c')) :
+    ∃ f' evss outs,
+      PesFilter.run f ((own p pks).map (·.bytes)) = .ok (f', evss) ∧
+      esAll c.cfg.touch τ (own p pks) evss = .ok outs ∧
+      proj τ c' = proj τ c ++ outs.flatten ∧
+      t'.get p = some (.pes τ f') ∧ TagInv (t', c') :=
+  pes_trace_is_filter_run_kept p τ pks t c f t' c' hi hg h188
+    (keeps_of_benign_traffic ver p τ pks t c f hg hB) hrun
 
 /-- … and for `Demultiplex::push` on raw bytes: the framed packets are 188 bytes by construction -/
 theorem pes_trace_is_filter_run_push (p τ : Nat) (buf : Bytes) (base : Nat) (pks : List Pk)
@@ -305,6 +376,22 @@ theorem pes_trace_is_filter_run_push (p τ : Nat) (buf : Bytes) (base : Nat) (pk
   rw [C06.push_refines_spec] at hrun
   exact pes_trace_is_filter_run_kept p τ pks t c f t' c' hi hg
     (fun pk hm _ _ => (Ts.Lemmas.C19.frame_pk_props buf base pks hf pk hm).2.2.2.2.1) hK hrun
+
+/-- … `Demultiplex::push` on raw bytes with INPUT-LEVEL hypotheses: the packets framed out of `buf`
+on PIDs other than `p` are `Benign` for the table and script at the start of the call -/
+theorem pes_trace_is_filter_run_push_benign (ver : Nat → Nat) (p τ : Nat) (buf : Bytes) (base : Nat)
+    (pks : List Pk) (t : Tab Handler) (c : Ctx) (f : PesFilter.F) (t' : Tab Handler) (c' : Ctx)
+    (hi : TagInv (t, c)) (hg : t.get p = some (.pes τ f))
+    (hf : frame buf base = .ok pks)
+    (hB : ∀ pk ∈ pks, pk.pid ≠ p → Benign ver c.cfg.script t pk)
+    (hrun : push App.sem (t, c) buf base = .ok (t', c')) :
+    ∃ f' evss outs,
+      PesFilter.run f ((own p pks).map (·.bytes)) = .ok (f', evss) ∧
+      esAll c.cfg.touch τ (own p pks) evss = .ok outs ∧
+      proj τ c' = proj τ c ++ outs.flatten ∧
+      t'.get p = some (.pes τ f') ∧ TagInv (t', c') :=
+  pes_trace_is_filter_run_push p τ buf base pks t c f t' c' hi hg hf
+    (keeps_of_benign_traffic ver p τ pks t c f hg hB) hrun
 
 /-- INDEPENDENCE OF THE INTERLEAVING: two runs (different tables, contexts, traffic on other PIDs)
 in which consumer `τ` sits on PID `p` in the same filter state and sees the same own packets
@@ -336,6 +423,96 @@ theorem projection_independent_of_interleaving (p τ : Nat) (xs ys : List Pk)
   · rw [proj_of_trace τ c2 c2' n2 b5, b6]
   · rw [a2, b2, hown]
 
+/-- vocabulary of `projection_independent_modulo_offsets`: `shiftEv d` adds `d` to the stream offsets
+an event carries (the exposed-payload range of `esBegin`, the range of `esCont`, the offset of a
+recorder's `pkt`) and leaves everything else alone; `placeAt pks rel` moves the `k`-th event list to
+the `k`-th packet's offset; `esAllRel` is `esAll` with every packet taken at offset 0 -/
+theorem shiftEv_vocabulary (d tag off len : Nat) (bi : BeginInfo) (pks : List Pk) (rel : List (List Ev)) :
+    shiftEv d (.esCont tag off len) = .esCont tag (d + off) len
+    ∧ shiftEv d (.esBegin tag bi) = .esBegin tag { bi with pl := bi.pl.map (fun r => (d + r.1, r.2)) }
+    ∧ shiftEv d (.pkt tag off) = .pkt tag (d + off)
+    ∧ shiftEv d (.esStart tag) = .esStart tag ∧ shiftEv d (.esEnd tag) = .esEnd tag
+    ∧ shiftEv d (.esCcErr tag) = .esCcErr tag
+    ∧ placeAt pks rel = List.zipWith (fun pk l => l.map (shiftEv pk.off)) pks rel :=
+  ⟨rfl, rfl, rfl, rfl, rfl, rfl, rfl⟩
+
+theorem esAllRel_spec (touch : Bool) (tag : Nat) (b : Bytes) (bs : List Bytes) (evs : List PesFilter.Ev)
+    (evss : List (List PesFilter.Ev)) :
+    esAllRel touch tag [] [] = .ok [] ∧
+    esAllRel touch tag (b :: bs) (evs :: evss) =
+      (esEvList touch tag b 0 evs >>= fun a =>
+        esAllRel touch tag bs evss >>= fun rest => R.ok (a :: rest)) :=
+  ⟨rfl, rfl⟩
+
+/-- what a consumer observes is the packet-relative events of its own packets, each packet's moved
+to that packet's stream offset -/
+theorem esAll_is_placed_rel (touch : Bool) (tag : Nat) (pks : List Pk) (evss : List (List PesFilter.Ev)) :
+    esAll touch tag pks evss =
+      (esAllRel touch tag (pks.map (·.bytes)) evss >>= fun rel => R.ok (placeAt pks rel)) :=
+  esAll_eq_rel touch tag pks evss
+
+/-- INDEPENDENCE OF THE INTERLEAVING, MODULO OFFSETS.  Two runs (different tables, contexts, traffic
+on other PIDs — so the own packets sit at DIFFERENT stream offsets) in which consumer `τ` sits on
+PID `p` in the same filter state and its own unflagged packets carry the same BYTES in the same
+order (`hown`; nothing is assumed about their offsets).  Then there is ONE list `rel` of
+packet-relative event lists (`esAllRel`: a function of those bytes only, one list per own packet)
+such that in each run the consumer observes exactly `rel` with the `k`-th list moved to the stream
+offset of the `k`-th own packet of THAT run (`placeAt`, `shiftEv`); both runs leave the handler in
+the same state `f'`; with offsets and other arguments erased (`esTrace`) the two runs append the
+SAME callback sequence `d`.  Hypotheses as in `projection_independent_of_interleaving` otherwise
+(`TagInv`, `Keeps` in both runs, same `touch` setting, 188-byte own packets). -/
+theorem projection_independent_modulo_offsets (p τ : Nat) (xs ys : List Pk)
+    (t1 t2 : Tab Handler) (c1 c2 : Ctx) (f : PesFilter.F) (t1' t2' : Tab Handler) (c1' c2' : Ctx)
+    (hi1 : TagInv (t1, c1)) (hi2 : TagInv (t2, c2))
+    (hg1 : t1.get p = some (.pes τ f)) (hg2 : t2.get p = some (.pes τ f))
+    (htouch : c1.cfg.touch = c2.cfg.touch)
+    (hown : (own p xs).map (·.bytes) = (own p ys).map (·.bytes))
+    (hx188 : ∀ pk ∈ xs, pk.pid = p → pk.flagged = false → pk.bytes.length = 188)
+    (hK1 : Keeps p τ (t1, c1) xs = true) (hK2 : Keeps p τ (t2, c2) ys = true)
+    (hr1 : pushSpec App.sem (t1, c1) xs = .ok (t1', c1'))
+    (hr2 : pushSpec App.sem (t2, c2) ys = .ok (t2', c2')) :
+    ∃ f' evss rel,
+      PesFilter.run f ((own p xs).map (·.bytes)) = .ok (f', evss) ∧
+      esAllRel c1.cfg.touch τ ((own p xs).map (·.bytes)) evss = .ok rel ∧
+      proj τ c1' = proj τ c1 ++ (placeAt (own p xs) rel).flatten ∧
+      proj τ c2' = proj τ c2 ++ (placeAt (own p ys) rel).flatten ∧
+      t1'.get p = some (.pes τ f') ∧ t2'.get p = some (.pes τ f') ∧
+      ∃ d, esTrace τ c1' = esTrace τ c1 ++ d ∧ esTrace τ c2' = esTrace τ c2 ++ d := by
+  have hbx : ∀ b ∈ (own p xs).map (·.bytes), b.length = 188 := by
+    intro b hb
+    simp only [List.mem_map, own, List.mem_filter] at hb
+    obtain ⟨pk, ⟨hm, hp⟩, rfl⟩ := hb
+    simp only [Bool.and_eq_true, beq_iff_eq, Bool.not_eq_true'] at hp
+    exact hx188 pk hm hp.1 hp.2
+  have hy188 : ∀ pk ∈ ys, pk.pid = p → pk.flagged = false → pk.bytes.length = 188 := by
+    intro pk hm hp hf
+    apply hbx
+    rw [hown]
+    exact List.mem_map.2 ⟨pk, by simp [own, hm, hp, hf], rfl⟩
+  obtain ⟨o1, n1, a1, a2, _, _, a5, a6⟩ := pushSpec_view p τ xs t1 c1 f t1' c1' hi1 hg1 hx188 hK1 hr1
+  obtain ⟨o2, n2, b1, b2, _, _, b5, b6⟩ := pushSpec_view p τ ys t2 c2 f t2' c2' hi2 hg2 hy188 hK2 hr2
+  rw [← hown, ← htouch] at b1
+  rw [← hown] at b2
+  have s1 := esAll_shape _ _ _ _ _ a1
+  have s2 := esAll_shape _ _ _ _ _ (by rw [← hown]; exact b1)
+  rw [← hown] at s2
+  rw [esAll_eq_rel] at a1 b1
+  rw [← hown] at b1
+  obtain ⟨rel, hrel, a1⟩ := R.bind_eq_ok a1
+  rw [hrel] at b1
+  have e1 : placeAt (own p xs) rel = o1 := R.ok_inj a1
+  have e2 : placeAt (own p ys) rel = o2 := R.ok_inj b1
+  have p1 : proj τ c1' = proj τ c1 ++ o1.flatten := by rw [proj_of_trace τ c1 c1' n1 a5, a6]
+  have p2 : proj τ c2' = proj τ c2 ++ o2.flatten := by rw [proj_of_trace τ c2 c2' n2 b5, b6]
+  have q1 : esTrace τ c1' = esTrace τ c1 ++ o1.flatten.filterMap esShape := by
+    unfold esTrace; rw [p1, List.filterMap_append]
+  have q2 : esTrace τ c2' = esTrace τ c2 ++ o2.flatten.filterMap esShape := by
+    unfold esTrace; rw [p2, List.filterMap_append]
+  rw [s1] at q1
+  rw [s2] at q2
+  exact ⟨_, _, rel, Ts.Lemmas.C08.run_eq f _ hbx, hrel, by rw [e1]; exact p1, by rw [e2]; exact p2,
+    a2, b2, _, q1, q2⟩
+
 /-! ## 3. corollaries -/
 
 /-- **(a)** every event attributed to `τ` that the run appends was emitted while consuming an
@@ -365,18 +542,19 @@ theorem es_consumer_sees_only_its_pid (p τ : Nat) (pks : List Pk) (t : Tab Hand
   obtain ⟨x, y, z⟩ := hown pk hpk
   exact ⟨pk, x, y, z, hin⟩
 
-/-- the same with the hypotheses of `C02.not_attributed_to_other_pid` -/
+/-- the same with the hypotheses of `C02.not_attributed_to_other_pid` (`hQ : QuietAlong`, on the
+actual run) -/
 theorem es_consumer_sees_only_its_pid' (p τ : Nat) (pks : List Pk) (t : Tab Handler) (c : Ctx)
     (f : PesFilter.F) (t' : Tab Handler) (c' : Ctx)
     (hi : TagInv (t, c)) (hg : t.get p = some (.pes τ f))
     (h188 : ∀ pk ∈ pks, pk.pid = p → pk.bytes.length = 188)
-    (hN : ∀ pk ∈ pks, pk.pid ≠ p → QueuesNothingFor App.sem p pk)
+    (hQ : QuietAlong App.sem p (t, c) pks)
     (hrun : pushSpec App.sem (t, c) pks = .ok (t', c')) :
     ∃ new, c'.trace = new ++ c.trace ∧
       ∀ e ∈ new, tagOf e = some τ →
         ∃ pk ∈ pks, pk.pid = p ∧ pk.flagged = false ∧ EvInPacket τ pk.off e :=
   es_consumer_sees_only_its_pid p τ pks t c f t' c' hi hg (fun pk hm hp _ => h188 pk hm hp)
-    (keeps_of_queuesNothing p τ pks t c f hg h188 hN) hrun
+    (keeps_of_not_attributed p τ pks t c f hg hQ) hrun
 
 /-- **(b)** CONSERVATION through the dispatcher.  If the unflagged PID-`p` packets of the
 interleaving are the packets of a well-formed `PesStream` (C02's independent encoder), then what
@@ -599,6 +777,182 @@ example : ∃ t' c', pushSpec App.sem (exTab0, exCtx0) exPks = .ok (t', c') ∧
     obtain ⟨f2, e2, o2, b1, b2, b3, b4, _⟩ := pes_trace_is_filter_run_kept 0x22 3 exPks exTab0 exCtx0 {} t' c'
       exState_inv.1 (by decide +kernel) (fun pk hm _ _ => hlen pk hm) k2 hrun
     exact ⟨t', c', rfl, ⟨f1, e1, o1, a1, a2, a3, a4⟩, ⟨f2, e2, o2, b1, b2, b3, b4⟩⟩
+
+open Ts.Lemmas.C02 (exPksRep exPksRep_benign exPat_rep exPmt2_rep) in
+/-- NON-VACUITY of the INPUT-LEVEL theorem `pes_trace_is_filter_run_benign`: from the state after PAT
+and PMT, over the interleaving `exPksRep` = `A PAT B PMT B null A A` (two elementary-stream PIDs 0x21
+and 0x22, a REPEATED PAT packet, a REPEATED PMT packet, a null packet on the unregistered PID
+0x1fff) every packet is benign (`exPksRep_benign`: PES handlers on 0x21 / 0x22, PAT and PMT handlers
+quiescent at version 0 with `RepPacket 0 exPat`, `RepPacket 0 exPmt2`, empty script), and the
+theorem gives — this is the conclusion of `pes_trace_is_filter_run` — the view of consumer 2
+(PID 0x21) and of consumer 3 (PID 0x22).  Only the success of the run is evaluated. -/
+example : ∃ t' c', pushSpec App.sem (exTab0, exCtx0) exPksRep = .ok (t', c') ∧
+    (∃ f' evss outs, PesFilter.run {} ((own 0x21 exPksRep).map (·.bytes)) = .ok (f', evss) ∧
+      esAll false 2 (own 0x21 exPksRep) evss = .ok outs ∧ proj 2 c' = proj 2 exCtx0 ++ outs.flatten ∧
+      t'.get 0x21 = some (.pes 2 f') ∧ TagInv (t', c')) ∧
+    (∃ f' evss outs, PesFilter.run {} ((own 0x22 exPksRep).map (·.bytes)) = .ok (f', evss) ∧
+      esAll false 3 (own 0x22 exPksRep) evss = .ok outs ∧ proj 3 c' = proj 3 exCtx0 ++ outs.flatten ∧
+      t'.get 0x22 = some (.pes 3 f') ∧ TagInv (t', c')) := by
+  have hok : ((pushSpec App.sem (exTab0, exCtx0) exPksRep).isOk
+      && exPksRep.all (fun pk => pk.bytes.length == 188)) = true := by decide +kernel
+  simp only [Bool.and_eq_true, List.all_eq_true, beq_iff_eq] at hok
+  obtain ⟨hok, hlen⟩ := hok
+  cases hrun : pushSpec App.sem (exTab0, exCtx0) exPksRep with
+  | panic s => rw [hrun] at hok; cases hok
+  | ok r =>
+    obtain ⟨t', c'⟩ := r
+    exact ⟨t', c', rfl,
+      pes_trace_is_filter_run_benign (fun _ => 0) 0x21 2 exPksRep exTab0 exCtx0 {} t' c'
+        exState_inv.1 (by decide +kernel) (fun pk hm _ _ => hlen pk hm)
+        (fun pk hm _ => exPksRep_benign pk hm) hrun,
+      pes_trace_is_filter_run_benign (fun _ => 0) 0x22 3 exPksRep exTab0 exCtx0 {} t' c'
+        exState_inv.1 (by decide +kernel) (fun pk hm _ _ => hlen pk hm)
+        (fun pk hm _ => exPksRep_benign pk hm) hrun⟩
+
+open Ts.Lemmas.C02 (exPksRep exPat_rep exPmt2_rep) in
+/-- … and of `keeps_of_es_and_repeated_tables` (hypotheses written out, no recorder clause) on the same
+interleaving without the null packet: `A PAT B PMT B A A`.  Nothing is evaluated except table lookups. -/
+example : Keeps 0x21 2 (exTab0, exCtx0) (exPksRep.filter (fun pk => pk.pid != 0x1fff)) = true := by
+  refine keeps_of_es_and_repeated_tables (fun _ => 0) 0x21 2 _ exTab0 exCtx0 {} (by decide +kernel) ?_
+  have g22 : exTab0.get 0x22 = some (.pes 3 {}) := by decide +kernel
+  have g0 : exTab0.get 0 = some (.pat { lastVersion := some 0 } [0x20]) := by decide +kernel
+  have g20 : exTab0.get 0x20 = some (.pmt 0x20 1 { lastVersion := some 0 } [0x21, 0x22]) := by
+    decide +kernel
+  intro pk hm hne
+  have hm' : pk ∈ [(⟨exA0, 376, 0x21, false, false⟩ : Pk), ⟨exPat, 564, 0, false, false⟩,
+      ⟨exB0, 752, 0x22, false, false⟩, ⟨exPmt2, 940, 0x20, false, false⟩,
+      ⟨exB1, 1128, 0x22, false, false⟩, ⟨exA1, 1504, 0x21, false, false⟩,
+      ⟨exA2, 1692, 0x21, false, false⟩] := hm
+  simp only [List.mem_cons, List.not_mem_nil, or_false] at hm'
+  rcases hm' with rfl | rfl | rfl | rfl | rfl | rfl | rfl
+  · exact absurd rfl hne
+  · exact Or.inr ⟨rfl, exPat_rep, _, g0, ⟨rfl, rfl⟩⟩
+  · exact Or.inl ⟨_, _, g22⟩
+  · exact Or.inr ⟨rfl, exPmt2_rep, _, g20, ⟨rfl, rfl⟩⟩
+  · exact Or.inl ⟨_, _, g22⟩
+  · exact absurd rfl hne
+  · exact absurd rfl hne
+
+open Ts.Lemmas.C02 (exPksRep) in
+/-- … concretely (evaluated): with the repeated tables and the null packet in between, consumers 2
+and 3 observe what they observe over `exPks` (same events, the offsets of the later packets moved
+by the inserted packets); the null packet is attributed to the recorder tagged 4 -/
+example : (match pushSpec App.sem (exTab0, exCtx0) exPksRep with
+    | .ok (_, c) => decide (
+        proj 2 c = [.esStart 2, .esBegin 2 (exBi 389), .esCont 2 1508 184, .esEnd 2, .esBegin 2 (exBi 1705)]
+        ∧ proj 3 c = [.esStart 3, .esBegin 3 (exBi 765), .esCont 3 1216 100]
+        ∧ proj 4 c = [.pkt 4 1316] ∧ c.nextTag = 5)
+    | .panic _ => false) = true := by decide +kernel
+
+open Ts.Lemmas.C02 (exPksRep exPksRep_benign) in
+/-- NON-VACUITY of `projection_independent_modulo_offsets` (and of `keeps_of_es_interleaving`): the runs
+over `exPks` = `A B B A A` and over `exPksRep` = `A PAT B PMT B null A A` from the same state.  The own
+packets of PID 0x21 carry the same bytes but sit at offsets 376, 940, 1128 resp. 376, 1504, 1692, so
+`projection_independent_of_interleaving` does not apply; this theorem does. -/
+example : ∃ c1' c2' rel d,
+    (∃ t1', pushSpec App.sem (exTab0, exCtx0) exPks = .ok (t1', c1')) ∧
+    (∃ t2', pushSpec App.sem (exTab0, exCtx0) exPksRep = .ok (t2', c2')) ∧
+    proj 2 c1' = proj 2 exCtx0 ++ (placeAt (own 0x21 exPks) rel).flatten ∧
+    proj 2 c2' = proj 2 exCtx0 ++ (placeAt (own 0x21 exPksRep) rel).flatten ∧
+    esTrace 2 c1' = esTrace 2 exCtx0 ++ d ∧ esTrace 2 c2' = esTrace 2 exCtx0 ++ d := by
+  have hok : ((pushSpec App.sem (exTab0, exCtx0) exPks).isOk
+      && (pushSpec App.sem (exTab0, exCtx0) exPksRep).isOk
+      && exPks.all (fun pk => pk.bytes.length == 188)
+      && decide ((own 0x21 exPks).map (·.bytes) = (own 0x21 exPksRep).map (·.bytes))) = true := by
+    decide +kernel
+  simp only [Bool.and_eq_true, List.all_eq_true, beq_iff_eq, decide_eq_true_eq] at hok
+  obtain ⟨⟨⟨ok1, ok2⟩, hlen⟩, hown⟩ := hok
+  have hg : exTab0.get 0x21 = some (.pes 2 {}) := by decide +kernel
+  have g22 : exTab0.get 0x22 = some (.pes 3 {}) := by decide +kernel
+  have hK1 : Keeps 0x21 2 (exTab0, exCtx0) exPks = true := by
+    refine keeps_of_es_interleaving 0x21 2 exPks exTab0 exCtx0 {} hg ?_
+    intro pk hm hne
+    simp only [exPks, List.mem_cons, List.not_mem_nil, or_false] at hm
+    rcases hm with rfl | rfl | rfl | rfl | rfl
+    · exact absurd rfl hne
+    · exact ⟨_, _, g22⟩
+    · exact ⟨_, _, g22⟩
+    · exact absurd rfl hne
+    · exact absurd rfl hne
+  have hK2 : Keeps 0x21 2 (exTab0, exCtx0) exPksRep = true :=
+    keeps_of_benign_traffic (fun _ => 0) 0x21 2 exPksRep exTab0 exCtx0 {} hg
+      (fun pk hm _ => exPksRep_benign pk hm)
+  cases hr1 : pushSpec App.sem (exTab0, exCtx0) exPks with
+  | panic s => rw [hr1] at ok1; cases ok1
+  | ok r1 =>
+    cases hr2 : pushSpec App.sem (exTab0, exCtx0) exPksRep with
+    | panic s => rw [hr2] at ok2; cases ok2
+    | ok r2 =>
+      obtain ⟨t1', c1'⟩ := r1
+      obtain ⟨t2', c2'⟩ := r2
+      obtain ⟨_, _, rel, _, _, a3, a4, _, _, d, a7, a8⟩ :=
+        projection_independent_modulo_offsets 0x21 2 exPks exPksRep exTab0 exTab0 exCtx0 exCtx0 {}
+          t1' t2' c1' c2' exState_inv.1 exState_inv.1 hg hg rfl hown (fun pk hm _ _ => hlen pk hm)
+          hK1 hK2 hr1 hr2
+      exact ⟨c1', c2', rel, d, ⟨t1', rfl⟩, ⟨t2', rfl⟩, a3, a4, a7, a8⟩
+
+/-- the interleaving `exPksRep` as raw bytes -/
+def exBufRep : Bytes :=
+  exA0 ++ exPat ++ exB0 ++ exPmt2 ++ exB1 ++ Ts.Lemmas.C02.exNull ++ exA1 ++ exA2
+
+open Ts.Lemmas.C02 (exPksRep exPksRep_benign) in
+/-- NON-VACUITY of `pes_trace_is_filter_run_push_benign`: the same interleaving as raw bytes handed to
+`Demultiplex::push` (376 bytes pushed before); `frame` yields exactly `exPksRep` -/
+example : ∃ t' c' f' evss outs,
+    push App.sem (exTab0, exCtx0) exBufRep 376 = .ok (t', c') ∧
+    PesFilter.run {} ((own 0x21 exPksRep).map (·.bytes)) = .ok (f', evss) ∧
+    esAll false 2 (own 0x21 exPksRep) evss = .ok outs ∧ proj 2 c' = proj 2 exCtx0 ++ outs.flatten ∧
+    t'.get 0x21 = some (.pes 2 f') := by
+  have ok1 : (push App.sem (exTab0, exCtx0) exBufRep 376).isOk = true := by decide +kernel
+  obtain ⟨pks, hf, hb⟩ := ok_of_check (frame exBufRep 376) (fun pks => decide (pks = exPksRep))
+    (by decide +kernel)
+  have hpks : pks = exPksRep := of_decide_eq_true hb
+  subst hpks
+  cases hrun : push App.sem (exTab0, exCtx0) exBufRep 376 with
+  | panic s => rw [hrun] at ok1; cases ok1
+  | ok r =>
+    obtain ⟨t', c'⟩ := r
+    obtain ⟨f', evss, outs, a1, a2, a3, a4, _⟩ := pes_trace_is_filter_run_push_benign (fun _ => 0) 0x21 2
+      exBufRep 376 _ exTab0 exCtx0 {} t' c' exState_inv.1 (by decide +kernel) hf
+      (fun pk hm _ => exPksRep_benign pk hm) hrun
+    exact ⟨t', c', f', evss, outs, rfl, a1, a2, a3, a4⟩
+
+/-- the two PES packets the PID-0x21 packets `exA0 exA1 | exA2` carry, as inputs of C02's independent
+encoder, with their plans -/
+def exStreamA : List (PesPkt × Plan) :=
+  [({ sid := 0xE0, len := 0, payload := List.replicate 175 0x11 ++ List.replicate 184 0x12 },
+      { first := exA0, conts := [exA1] }),
+   ({ sid := 0xE0, len := 0, payload := List.replicate 175 0x13 }, { first := exA2, conts := [] })]
+
+open Ts.Lemmas.C02 (exPksRep exPksRep_benign) in
+/-- NON-VACUITY of `es_consumer_conservation`: the unflagged PID-0x21 packets of `exPksRep` are the
+packets of the well-formed `PesStream` `exStreamA`; `Keeps` comes from the input-level theorem.  So
+through the dispatcher, interleaved with PID 0x22, a repeated PAT, a repeated PMT and a null packet,
+consumer 2 observes the `esAll` image of the encoder's expected callbacks and its filter ends in
+`streamFinal` = `started`, counter 2. -/
+example : ∃ t' c' outs, pushSpec App.sem (exTab0, exCtx0) exPksRep = .ok (t', c') ∧
+    esAll false 2 (own 0x21 exPksRep) (streamEvs .begin (exStreamA.map (·.2))) = .ok outs ∧
+    proj 2 c' = proj 2 exCtx0 ++ outs.flatten ∧
+    t'.get 0x21 = some (.pes 2 ⟨some 2, .started⟩) ∧
+    delivered (streamPackets exStreamA) (streamEvs .begin (exStreamA.map (·.2)))
+      = (exStreamA.map (fun x => encodePes x.1)).flatten := by
+  have hok : ((pushSpec App.sem (exTab0, exCtx0) exPksRep).isOk
+      && decide ((own 0x21 exPksRep).map (·.bytes) = streamPackets exStreamA)
+      && decide (PesStream none exStreamA)
+      && decide (streamFinal {} exStreamA = ⟨some 2, .started⟩)) = true := by decide +kernel
+  simp only [Bool.and_eq_true, decide_eq_true_eq] at hok
+  obtain ⟨⟨⟨ok1, hsub⟩, hs⟩, hfin⟩ := hok
+  have hg : exTab0.get 0x21 = some (.pes 2 {}) := by decide +kernel
+  cases hrun : pushSpec App.sem (exTab0, exCtx0) exPksRep with
+  | panic s => rw [hrun] at ok1; cases ok1
+  | ok r =>
+    obtain ⟨t', c'⟩ := r
+    obtain ⟨outs, a1, a2, a3, _, a5⟩ := es_consumer_conservation 0x21 2 exPksRep exTab0 exCtx0 {} t' c'
+      exStreamA exState_inv.1 hg hsub hs
+      (keeps_of_benign_traffic (fun _ => 0) 0x21 2 exPksRep exTab0 exCtx0 {} hg
+        (fun pk hm _ => exPksRep_benign pk hm)) hrun
+    rw [hfin] at a3
+    exact ⟨t', c', outs, rfl, a1, a2, a3, a5⟩
 
 /-- … and concretely (evaluated): the two views, and the callbacks `PesFilter.run` yields on each
 PID's own packets alone -/
